@@ -60,6 +60,77 @@ def doc_header_constants():
     return out
 
 
+# ------------------------------------------------------------------ symbolic byte streams (sa.sym / sa.wire)
+def wire_writes(prog, fn, env):
+    """[(kind, payload)] — the byte stream `fn` writes, from the symbolic interpreter (helpers inlined down to
+    std::io::Write::write_all, lets / matches / early computations resolved):
+       ('bytes', (b0, b1, ...))    constant bytes
+       ('le', width, term)         little-endian integer of `width` bytes
+       ('be', width, term)
+       ('raw', term)               a byte string held by `term`
+       ('fill', n, byte)
+    Raises AnalysisError when the stream has control structure left (callers case-split on enum inputs)."""
+    from sa import wire, sym
+    I, val, ex = wire.run_region(prog, fn.body, env, wire.BYTE_PRIMS, depth=8)
+    out = []
+    for e in I.events:
+        if e[0] != "W":
+            if e[0] == "alt" and all(not sub for _c, sub, _x in e[1]):
+                continue
+            if e[0] == "alt":
+                live = [(cnd, sub, x) for cnd, sub, x in e[1] if x != "err"]
+                if len(live) == 1 and not live[0][1]:
+                    continue
+            raise core.AnalysisError(f"{fn.path}: byte stream has residual control structure ({e[0]})")
+        t = e[2]
+        if t[0] == "c" and isinstance(t[1], tuple):
+            out.append(("bytes", tuple(t[1])))
+        elif t[0] == "app" and len(t[2]) == 1:
+            import re as _re
+            m = _re.search(r"<impl ([iuf])(\d+)>::to_(le|be)_bytes$", t[1])
+            if m:
+                out.append((m.group(3), int(m.group(2)) // 8, untyped(t[2][0])))
+            else:
+                out.append(("raw", t))
+        elif t[0] == "vec" and len(t[1]) == 1 and t[1][0][0] == "fill":
+            out.append(("fill", t[1][0][1], t[1][0][2]))
+        elif t[0] == "vec" and not t[1]:
+            out.append(("bytes", ()))
+        else:
+            out.append(("raw", t))
+    return out, val
+
+
+def untyped(t):
+    """drop integer casts"""
+    while isinstance(t, tuple) and t and t[0] == "cast":
+        t = t[2]
+    return t
+
+
+def length_of(t):
+    return ("len", ("iter", t))
+
+
+def expect_stream(c, R, inst, got, want, what, where):
+    from sa import sym
+    if got == want:
+        c.ok(R, inst)
+        return True
+    i = 0
+    while i < min(len(got), len(want)) and got[i] == want[i]:
+        i += 1
+
+    def sh(x):
+        if x is None:
+            return "(nothing)"
+        return "(" + ", ".join(sym.term_str(y) if isinstance(y, tuple) and y and isinstance(y[0], str) else repr(y) for y in x) + ")"
+    g = got[i] if i < len(got) else None
+    w = want[i] if i < len(want) else None
+    c.violation(R, f"{inst}|seq", f"{what}: write #{i + 1} is {sh(g)}, the format requires {sh(w)}", where, instance=inst)
+    return False
+
+
 def expect(c, R, inst, got, want, what, where):
     if got == want:
         c.ok(R, inst)
@@ -81,12 +152,13 @@ def run(c, prog):
     c.sample({"rule": R, "doc_constants": {k: list(v) if isinstance(v, tuple) else v for k, v in K.items()}})
     # ---- header
     fn = common.find_fn(prog, SS + "write_header$")
-    got = describe(prog, ioseq.drop_rets(seq(prog, fn)))
-    want = [("call", "write_all", (("const", K["magic"]),)), ("call", "write_all", (("const", K["signature"]),)),
-            ("call", "write_le_u16", (("const", K["version"]),)),
-            ("call", "write_le_u32", (("len", "self.type_infos.values"),)), ("call", "write_le_u32", (("len", "self.relevant_instances"),)),
-            ("call", "write_all", (("const", (0,) * 8),))]
-    expect(c, R, "header", got, want, "file header", fn.sp)
+    selft = ("in", "self")
+    got, _ = wire_writes(prog, fn, {fn.params[0]["lid"]: selft})
+    from sa import sym as _sym
+    want = [("bytes", K["magic"]), ("bytes", K["signature"]), ("le", 2, ("c", K["version"])),
+            ("le", 4, length_of(_sym.fld(_sym.fld(selft, "type_infos"), "values"))), ("le", 4, length_of(_sym.fld(selft, "relevant_instances"))),
+            ("fill", ("c", 8), ("c", 0))]
+    expect_stream(c, R, "header", got, want, "file header", fn.sp)
     # ---- END
     fn = common.find_fn(prog, SS + "serialize_end$")
     got = describe(prog, ioseq.drop_rets(seq(prog, fn)))
@@ -107,39 +179,37 @@ def run(c, prog):
     expect(c, R, "end:body", rest, want, "END chunk", fn.sp)
     # ---- dump
     fn = prog.fn("rbx_binary::chunk::ChunkBuilder::dump")
-
-    def is_dump_io(n):
-        cal = core.callee_generic(n) or ""
-        nm = cal.rsplit("::", 1)[-1]
-        if nm.startswith("write_"):
-            return nm
-        if cal in ("lz4::block::compress", "zstd::bulk::compress"):
-            return cal
-        return None
-    sk = ioseq.drop_rets(ioseq.skeleton(fn.body, is_dump_io))
-    d = describe(prog, sk)
-    ok = len(d) == 2 and d[0] == ("call", "write_all", (("place", "self.chunk_name"),)) and d[1][0] == "match" and d[1][1] == ("place", "self.compression")
-    if not ok:
-        c.violation(R, "dump|shape", f"ChunkBuilder::dump is no longer `write name; match compression {{…}}`: {d[:2]}", fn.sp, instance="dump:shape")
+    CT = "rbx_binary::serializer::CompressionType"
+    variants = [v["name"] for v in prog.adt(CT)["variants"]]
+    if set(variants) == {"None", "Lz4", "Zstd"}:
+        c.ok(R, "dump:arms")
     else:
-        c.ok(R, "dump:name-first")
-        arms = dict(d[1][2])
-        want_none = (("call", "write_le_u32", (("const", 0),)), ("call", "write_le_u32", (("len", "self.buffer"),)), ("call", "write_le_u32", (("const", 0),)), ("call", "write_all", (("place", "self.buffer"),)))
-        expect(c, R, "dump:None", arms.get("CompressionType::None", ()), want_none, "uncompressed chunk framing", fn.sp)
-        for nm, comp in (("Lz4", "lz4::block::compress"), ("Zstd", "zstd::bulk::compress")):
-            a = arms.get("CompressionType::" + nm, ())
-            ok = (len(a) == 5 and a[0][0] == "call" and a[0][1] == comp and a[0][2][0] == ("place", "self.buffer")
-                  and a[1] == ("call", "write_le_u32", (("len", "compressed"),)) and a[2] == ("call", "write_le_u32", (("len", "self.buffer"),))
-                  and a[3] == ("call", "write_le_u32", (("const", 0),)) and a[4] == ("call", "write_all", (("place", "compressed"),)))
-            # `compressed` must be the result of the compress call
-            if ok:
-                c.ok(R, f"dump:{nm}")
-            else:
-                c.violation(R, f"dump|{nm}", f"{nm} chunk framing is {a}; required: compress(buffer) · compressed_len · len(buffer) · 0 · compressed payload", fn.sp, instance=f"dump:{nm}")
-        if set(arms) == {"CompressionType::None", "CompressionType::Lz4", "CompressionType::Zstd"}:
-            c.ok(R, "dump:arms")
-        else:
-            c.violation(R, "dump|arms", f"dump has arms {sorted(arms)}", fn.sp, instance="dump:arms")
+        c.violation(R, "dump|arms", f"CompressionType has variants {variants}; the chunk framing is confirmed for None / Lz4 / Zstd only", fn.sp, instance="dump:arms")
+    comp_fn = {"Lz4": "lz4::block::compress", "Zstd": "zstd::bulk::compress"}
+    name_t, buf_t = ("in", "chunk_name"), ("in", "buffer")
+    for v in variants:
+        selft = ("st", "rbx_binary::chunk::ChunkBuilder", (("chunk_name", name_t), ("compression", _sym.var(CT + "::" + v)), ("buffer", buf_t)))
+        inst = f"dump:{v}"
+        try:
+            got, _ = wire_writes(prog, fn, {fn.params[0]["lid"]: selft, fn.params[1]["lid"]: ("in", "writer")})
+        except (core.AnalysisError, _sym.Unsupported) as e:
+            c.violation(R, f"dump|{v}", f"cannot determine the bytes ChunkBuilder::dump writes for CompressionType::{v}: {e}", fn.sp, instance=inst)
+            continue
+        if v == "None":
+            want = [("raw", name_t), ("le", 4, ("c", 0)), ("le", 4, length_of(buf_t)), ("le", 4, ("c", 0)), ("raw", buf_t)]
+            expect_stream(c, R, inst, got, want, "uncompressed chunk framing (name · 0 · len · 0 · payload)", fn.sp)
+            continue
+        # compressed: the payload is the (unwrapped) result of the compressor applied to the buffer
+        payload = got[4][1] if len(got) == 5 and got[4][0] == "raw" else None
+        pt = payload
+        while pt is not None and pt[0] == "try":
+            pt = pt[1]
+        okp = pt is not None and pt[0] == "app" and pt[1] == comp_fn.get(v) and pt[2][:1] == (buf_t,)
+        if not okp:
+            c.violation(R, f"dump|{v}", f"{v} chunk: the payload written is not {comp_fn.get(v)}(buffer, ..): {[_sym.term_str(x[-1]) if isinstance(x[-1], tuple) else x for x in got]}", fn.sp, instance=inst)
+            continue
+        want = [("raw", name_t), ("le", 4, length_of(payload)), ("le", 4, length_of(buf_t)), ("le", 4, ("c", 0)), ("raw", payload)]
+        expect_stream(c, R, inst, got, want, f"{v} chunk framing (name · compressed_len · len(buffer) · 0 · compressed payload)", fn.sp)
     # ---- phase order
     fn = common.find_fn(prog, r"^rbx_binary::serializer::Serializer.*::serialize$")
 
